@@ -237,13 +237,15 @@ def brute(infr, inam, edges, mode):
 
 def _layout(x, how):
     """the same values in another memory layout (the spectrum is a function of the values only)"""
-    x = np.asarray(x, float)
+    x = np.asarray(x)
+    if x.dtype == object or x.dtype.kind not in 'fiub':
+        x = np.asarray(x, float)
     if how == 'F':
         return np.asfortranarray(x.copy())
     if how == 'T' and x.ndim == 2:                 # transposed view of a C-ordered (M, T) array, e.g. np.vstack((ia1, ia2)).T
         return np.ascontiguousarray(x.T).T
     if how == 'strided' and x.ndim == 2:           # every other row / column of a larger buffer
-        big = np.full((2 * x.shape[0], 2 * x.shape[1]), -7.0)
+        big = np.full((2 * x.shape[0], 2 * x.shape[1]), -7, dtype=x.dtype)
         big[::2, ::2] = x
         return big[::2, ::2]
     return x.copy()
@@ -260,21 +262,28 @@ def replay(w):
     if w.get('kind') != 'hht':
         return False, 'unknown witness kind'
     f, a, e = np.array(w['infr'], float), np.array(w['inam'], float), np.array(w['edges'], float)
-    dense, one = brute(f, a, e, w['mode'])
+    # frequencies / amplitudes stored in another dtype (integer-valued frequencies in Hz, single precision): the spectrum is that of the
+    # stored values against the caller's float64 edges
+    if w.get('dtype_f'):
+        f = f.astype(w['dtype_f'])
+    if w.get('dtype_a'):
+        a = a.astype(w['dtype_a'])
+    dense, one = brute(f.astype(float), a.astype(float), e, w['mode'])
+    tol = 1e-12 if not w.get('dtype_a') else 2e-6          # (single-precision amplitudes are squared in single precision)
     lay = w.get('layout', 'C')
     msgs = []
     try:
         got_d = ES.hilberthuang(_layout(f, lay), _layout(a, lay), e, mode=w['mode'])
         got_s = ES.hilberthuang(_layout(f, lay), _layout(a, lay), e, mode=w['mode'], return_sparse=True).toarray()
-        if got_d.shape != dense.shape or not np.allclose(got_d, dense, rtol=1e-12, atol=1e-12):
+        if got_d.shape != dense.shape or not np.allclose(got_d, dense, rtol=tol, atol=tol):
             msgs.append('dense spectrum %s differs from per-sample histogram %s' % (np.round(got_d, 6).tolist(), np.round(dense, 6).tolist()))
-        if got_s.shape != dense.shape or not np.allclose(got_s, dense, rtol=1e-12, atol=1e-12):
+        if got_s.shape != dense.shape or not np.allclose(got_s, dense, rtol=tol, atol=tol):
             msgs.append('sparse spectrum differs from per-sample histogram')
     except Exception as ex:
         msgs.append('hilberthuang raised %s: %s' % (type(ex).__name__, ex))
     try:
         got_1 = ES.hilberthuang_1d(_layout(f, lay), _layout(a, lay), e, mode=w['mode'])
-        if got_1.shape != one.shape or not np.allclose(got_1, one, rtol=1e-12, atol=1e-12):
+        if got_1.shape != one.shape or not np.allclose(got_1, one, rtol=tol, atol=tol):
             msgs.append('1-D marginal %s differs from per-sample histogram %s' % (np.round(got_1, 6).tolist(), np.round(one, 6).tolist()))
     except Exception as ex:
         msgs.append('hilberthuang_1d raised %s: %s' % (type(ex).__name__, ex))
@@ -325,6 +334,28 @@ def refute(tier, seed, emit):
                 ok, msg = replay(w)
                 if ok:
                     emit.violation('each-sample-in-exactly-its-half-open-bin:on-inexact-edges', w, msg[:400])
+        if emit.full:
+            return
+    # frequencies stored as integers (whole Hz) or in single precision, against fractional / inexactly representable float64 edges
+    emit.scope('integer-valued (int64, int32) and single-precision frequency arrays [T 6..40 x M 1..3] x float64 edges that are not representable in that dtype (x.5 edges for the integers, tenths for float32; samples on, just below and just above edges) x {energy, amplitude}; amplitudes float64 and float32')
+    rr = rng(seed, 110)
+    for q in range(24 if tier == 'quick' else 240):
+        Tn, M = int(rr.randint(6, 41)), int(rr.randint(1, 4))
+        dtf = ['int64', 'int32', 'float32'][q % 3]
+        if dtf.startswith('int'):
+            e = np.arange(0, 8) + 0.5 if q % 2 else np.array([0.5, 2.25, 3.75, 6.5])
+            f = rr.randint(-1, 9, size=(Tn, M)).astype(float)
+        else:
+            e = np.linspace(0.1, 0.9, 9)
+            f = rr.choice(np.r_[e, e[:-1] + 0.05, [0.0, 1.0]], size=(Tn, M))
+            f = np.float32(f).astype(float) if q % 2 else f
+        a = rr.rand(Tn, M) + 0.25
+        mode = 'energy' if q % 4 < 2 else 'amplitude'
+        emit.case(('dtype', q), nontrivial=True, contract='hilberthuang')
+        w = {'kind': 'hht', 'infr': f.tolist(), 'inam': a.tolist(), 'edges': e.tolist(), 'mode': mode, 'layout': 'C', 'dtype_f': dtf, 'dtype_a': 'float32' if q % 5 == 0 else None}
+        ok, msg = replay(w)
+        if ok:
+            emit.violation('each-sample-in-exactly-its-half-open-bin:%s-frequencies' % dtf, w, msg[:400])
         if emit.full:
             return
     # bin construction
